@@ -313,6 +313,10 @@ func Sqrt(ctx *expr.Context, input system.Collection, args ...expr.Expression) (
 	}
 	// Ceiling number
 	value := math.Sqrt(number)
+	// A Decimal too large for float64 arrives here as +Inf: no result, as for the other math functions.
+	if math.IsNaN(value) || math.IsInf(value, 0) {
+		return system.Collection{}, nil
+	}
 	result := decimal.NewFromFloat(value)
 	return system.Collection{system.Decimal(result)}, nil
 }
